@@ -153,11 +153,11 @@ def conservation(ctx, mg):
     full = ("adt", "std::ops::RangeFull", "RangeFull", ())
     d_c = ("call", "std::vec::Vec::drain", (("field", selfp, "centroids"), full))
     d_b = ("call", "std::vec::Vec::drain", (("field", selfp, "backlog"), full))
-    heads = mg.loop_heads()
-    if len(heads) != 1:
-        ctx.shape("R16-conservation", mg.key, mg, "merge has %d loops, expected the single fuse loop" % len(heads))
+    from .common import fuse_loop
+    h = fuse_loop(mg, tb)
+    if h is None:
+        ctx.shape("R16-conservation", mg.key, mg, "merge has %d loops, none or several of which grow a cluster" % len(mg.loop_heads()))
         return
-    h = heads[0]
     body = mg.natural_loop(h)
     # the loop stream
     it = None
@@ -171,10 +171,11 @@ def conservation(ctx, mg):
     rest_of_buffer = it is not None and it[0] == "call" and (
         (it[1].endswith("Vec::drain") and it[2][1] == ("adt", "std::ops::RangeFrom", "RangeFrom", (("start", const(1)),)))
         or (it[1].endswith("Iterator::skip") and len(it[2]) == 2 and it[2][1] == const(1)))     # buffer.into_iter().skip(1)
-    if not rest_of_buffer:
+    took_first = it is not None and it[0] == "rest"      # `let mut rest = buffer.into_iter(); let first = rest.next()..; loop over rest`
+    if not rest_of_buffer and not took_first:
         probs.append("the fuse loop does not run over buffer.drain(1..) / buffer.into_iter().skip(1): %s" % (fmt(it)[:160] if it else "?"))
     else:
-        X1 = it[2][0]
+        X1 = it[1] if took_first else it[2][0]
         okx = X1[0] == "call" and X1[1].endswith("collect") and X1[2][0][0] == "map"
         if okx:
             src = X1[2][0][1]
@@ -191,7 +192,7 @@ def conservation(ctx, mg):
         if not okx:
             probs.append("the sort buffers are not (mean, c) over centroids.drain(..) ++ backlog.drain(..) projected back to c: %s" % fmt(X1)[:200])
     # current
-    nxt = ("elem", it) if it is not None else None
+    nxt = elem_of(it) if it is not None else None
     cur_l = None
     for l in range(len(mg.locals)):
         if mg.local_ty(l) == "tdigest::Centroid" and tb.defined_in_loop(l, h) and mg.local_name(l):
@@ -204,7 +205,9 @@ def conservation(ctx, mg):
         lv = ("loopvar", cur_l, h)
         init = tb.loop_init(cur_l, h)
         upd = tb.loop_update(cur_l, h)
-        if X1 is not None and init != ("index", X1, const(0)):
+        # the first buffer element: buffer[0] next to drain(1..)/skip(1), or the item that next() took off the iterator
+        first_ok = init == elem_of(X1) if (X1 is not None and took_first) else init == ("index", X1, const(0))
+        if X1 is not None and not first_ok:
             probs.append("current starts as %s, expected buffer[0]" % fmt(init)[:120])
         fused = ("adt", CE, "Centroid", tuple(sorted({"sum": mk("Add", ("field", nxt, "sum"), ("field", lv, "sum")), "count": mk("Add", ("field", nxt, "count"), ("field", lv, "count"))}.items())))
         alts = [x for x in upd[1]] if upd[0] == "phi" else [upd]
@@ -225,7 +228,9 @@ def conservation(ctx, mg):
                 a = [tb.operand(z, bi, len(mg.blocks[bi].stmts)) for z in t.args]
                 pushes.append((bi, a))
         inloop = [(b, a) for b, a in pushes if b in body]
-        after = [(b, a) for b, a in pushes if b not in body]
+        # pushes after the fuse loop (pushes of earlier loops that build the sort buffer are not the result vector's)
+        others = set().union(*[mg.natural_loop(hh) for hh in mg.loop_heads() if hh != h]) if len(mg.loop_heads()) > 1 else set()
+        after = [(b, a) for b, a in pushes if b not in body and b not in others and mg.dominates(h, b)]
         res_l = None
         if len(inloop) != 1 or len(after) != 1:
             probs.append("%d pushes inside the loop and %d after it (expected 1 and 1)" % (len(inloop), len(after)))
